@@ -109,7 +109,13 @@ func fqOps() map[string]opDef {
 				if err != nil {
 					return "err"
 				}
-				return feeName(w, f)
+				// the caller reads the Fee it was given
+				vsync.Access(f, "MiningFee", false, "harness: caller reads the *Fee that Fee("+ft+") returned")
+				n := feeName(w, f)
+				if r, ok := feeRate[n]; ok && r != fmt.Sprintf("%d/%d", f.MiningFee.Satoshis, f.MiningFee.Bytes) {
+					return n + " reading " + fmt.Sprintf("%d/%d", f.MiningFee.Satoshis, f.MiningFee.Bytes) + " (modified in place)"
+				}
+				return n
 			},
 			spec: func(m *model, _ map[string]*model) string {
 				if v, ok := m.fees[ft]; ok {
@@ -309,17 +315,18 @@ func linearizable(evs []*event, ops map[string]opDef, keyOf func(e *event) strin
 // ---------- FeeQuotes scenarios ----------
 
 func feeQuotesBodies(sc scenario) []func() {
-	b, _ := feeQuotesBodiesNotes(sc)
+	b, _, _ := feeQuotesBodiesNotes(sc)
 	return b
 }
 
 func runFeeQuotes(sc scenario, prefix []int) (execution, []string) {
-	bodies, notes := feeQuotesBodiesNotes(sc)
+	bodies, notes, final := feeQuotesBodiesNotes(sc)
 	res := vsync.Run(prefix, bodies)
+	final()
 	return execution{res: res}, *notes
 }
 
-func feeQuotesBodiesNotes(sc scenario) ([]func(), *[]string) {
+func feeQuotesBodiesNotes(sc scenario) ([]func(), *[]string, func()) {
 	// observable consistency for the quotes map: every read returns a quote that some write stored
 	fqs := bt.NewFeeQuotes("m1")
 	q1, _ := fqs.Quote("m1")
@@ -329,6 +336,40 @@ func feeQuotesBodiesNotes(sc scenario) ([]func(), *[]string) {
 	notes := &[]string{}
 	var mu sync.Mutex
 	note := func(s string) { mu.Lock(); *notes = append(*notes, s); mu.Unlock() }
+	// every Fee object a write can store, with the contents it was stored with: a read must return
+	// one of these objects, reading as stored; nothing in the API may change a Fee in place
+	stored := map[*bt.Fee]bt.Fee{f9: *f9}
+	for _, q := range []*bt.FeeQuote{q1, q2} {
+		for _, ft := range []bt.FeeType{bt.FeeTypeStandard, bt.FeeTypeData} {
+			if f, err := q.Fee(ft); err == nil {
+				stored[f] = *f
+			}
+		}
+	}
+	readFee := func(op string, f *bt.Fee) {
+		vsync.Access(f, "MiningFee", false, "harness: caller reads the *Fee that "+op+" returned")
+		vsync.Access(f, "RelayFee", false, "harness: caller reads the *Fee that "+op+" returned")
+		got := *f
+		want, ok := stored[f]
+		switch {
+		case !ok:
+			note(op + " returned a Fee object nobody stored")
+		case got != want:
+			note(fmt.Sprintf("%s returned a Fee reading %+v, it was stored as %+v", op, got, want))
+		}
+	}
+	final := func() {
+		var ms []string
+		for f, want := range stored {
+			if *f != want {
+				ms = append(ms, fmt.Sprintf("a Fee object stored as %+v now reads %+v: it was modified in place", want, *f))
+			}
+		}
+		sort.Strings(ms)
+		for _, m := range ms {
+			note(m)
+		}
+	}
 	do := func(op string) {
 		switch op {
 		case "Quote":
@@ -347,6 +388,8 @@ func feeQuotesBodiesNotes(sc scenario) ([]func(), *[]string) {
 			f, err := fqs.Fee("m1", bt.FeeTypeStandard)
 			if err != nil || f == nil {
 				note("Fee(m1,standard) failed")
+			} else {
+				readFee("Fee(m1,standard)", f)
 			}
 		case "AddMiner":
 			fqs.AddMiner("m2", q2)
@@ -365,6 +408,8 @@ func feeQuotesBodiesNotes(sc scenario) ([]func(), *[]string) {
 		case "InnerFee":
 			if f, err := q1.Fee(bt.FeeTypeStandard); err != nil || f == nil {
 				note("inner Fee failed")
+			} else {
+				readFee("Quote(m1).Fee(standard)", f)
 			}
 		}
 	}
@@ -377,7 +422,7 @@ func feeQuotesBodiesNotes(sc scenario) ([]func(), *[]string) {
 			}
 		})
 	}
-	return bodies, notes
+	return bodies, notes, final
 }
 
 // ---------- engine scenarios ----------
@@ -425,6 +470,16 @@ func buildEngineCases() []engCase {
 				return []interpreter.ExecutionOptionFunc{interpreter.WithScripts(bscript.NewFromBytes([]byte{0x52, 0x87}), bscript.NewFromBytes([]byte{0x51}))}
 			}},
 			spend(mkKey(3), false, 3),
+			// conditionals after genesis (the per-execution record of which OP_IF has seen its OP_ELSE)
+			{name: "if-else taken", opts: func() []interpreter.ExecutionOptionFunc {
+				return []interpreter.ExecutionOptionFunc{interpreter.WithScripts(bscript.NewFromBytes([]byte{0x63, 0x51, 0x67, 0x00, 0x68}), bscript.NewFromBytes([]byte{0x51})), interpreter.WithAfterGenesis()}
+			}},
+			{name: "if-else else-branch, nested", opts: func() []interpreter.ExecutionOptionFunc {
+				return []interpreter.ExecutionOptionFunc{interpreter.WithScripts(bscript.NewFromBytes([]byte{0x63, 0x00, 0x67, 0x51, 0x63, 0x51, 0x67, 0x00, 0x68, 0x68}), bscript.NewFromBytes([]byte{0x00})), interpreter.WithAfterGenesis()}
+			}},
+			{name: "two OP_ELSE (rejected after genesis)", opts: func() []interpreter.ExecutionOptionFunc {
+				return []interpreter.ExecutionOptionFunc{interpreter.WithScripts(bscript.NewFromBytes([]byte{0x63, 0x51, 0x67, 0x00, 0x67, 0x51, 0x68}), bscript.NewFromBytes([]byte{0x51})), interpreter.WithAfterGenesis()}
+			}},
 		}
 	})
 	return engCases
@@ -664,6 +719,9 @@ func scenarios(thorough bool) []scenario {
 		scenario{Name: "engine-3", Kind: "engine", Threads: [][]string{{"exec0"}, {"exec2"}, {"exec3"}}},
 		scenario{Name: "engine-2x2", Kind: "engine", Threads: [][]string{{"exec0", "exec3"}, {"exec2", "exec4"}}},
 		scenario{Name: "engine-3b", Kind: "engine", Threads: [][]string{{"exec4"}, {"exec1"}, {"exec0"}}},
+		scenario{Name: "engine-cond-2", Kind: "engine", Threads: [][]string{{"exec5"}, {"exec6"}}},
+		scenario{Name: "engine-cond-2x2", Kind: "engine", Threads: [][]string{{"exec5", "exec7"}, {"exec6", "exec5"}}},
+		scenario{Name: "engine-cond-3", Kind: "engine", Threads: [][]string{{"exec6"}, {"exec7"}, {"exec0"}}},
 	)
 	return out
 }
@@ -751,7 +809,7 @@ func main() {
 	r.Note("feequote_scenarios_with_a_single_outcome", singleOutcome)
 	r.Sample("schedule", map[string]any{"scenario": scs[13], "schedule": []int{0, 1, 0}})
 	r.Sample("schedule", map[string]any{"scenario": scs[len(scs)-2], "note": "engine: Execute has no lock operations; interleavings reduce to start orders, shared-state writes are caught by the happens-before monitor"})
-	os.Exit(r.Finish("stateless schedule exploration of the real fees.go / interpreter code (instrumented from the working tree at check time) under a cooperative scheduler: scheduling points before every Lock/RLock (a write lock first announces itself, modelling writer preference), at thread start and end; DFS over choice prefixes with iterative preemption bound 0,1,2 and then unbounded, every scenario explored to completion. Scenarios: every unordered pair of the 11 FeeQuote operations on 2 threads, triples of the 6 core operations on 3 threads, 2x2 combinations, every pair (thorough: triple) of 10 FeeQuotes operations incl. operations on the quote it hands out, and 2-3 threads calling Execute on one engine with distinct transactions. Oracles on every schedule: vector-clock happens-before race detection over all accesses to mutex-guarded fields / engine fields / package variables, deadlock, panics, linearizability against a plain-map sequential model (brute force over orders consistent with real time), every read returns a stored value, concurrent verdicts = sequential verdicts; recorded schedules replay deterministically (each finding is re-executed before it is reported)"))
+	os.Exit(r.Finish("stateless schedule exploration of the real fees.go / interpreter code (instrumented from the working tree at check time) under a cooperative scheduler: scheduling points before every Lock/RLock (a write lock first announces itself, modelling writer preference), at thread start and end; DFS over choice prefixes with iterative preemption bound 0,1,2 and then unbounded, every scenario explored to completion. Scenarios: every unordered pair of the 11 FeeQuote operations on 2 threads, triples of the 6 core operations on 3 threads, 2x2 combinations, every pair (thorough: triple) of 10 FeeQuotes operations incl. operations on the quote it hands out, and 2-3 threads calling Execute on one engine with distinct transactions (P2PKH spends, script-only runs, post-genesis conditionals). Oracles on every schedule: vector-clock happens-before race detection over EVERY access the type-checked instrumentation finds in packages bt, bscript and bscript/interpreter (struct fields reached through a pointer, package-level variables, locals aliasing a map/slice field) plus the harness's own reads of the *Fee values it is handed, deadlock, panics, linearizability against a plain-map sequential model (brute force over orders consistent with real time), every read returns a stored Fee/quote object reading as it was stored and no stored Fee object is modified in place, concurrent verdicts = sequential verdicts; recorded schedules replay deterministically (each finding is re-executed before it is reported)"))
 }
 
 // freeRun executes the scenario bodies without the scheduler (real mutexes, real
